@@ -304,6 +304,34 @@ theorem C15_sends_guarded :
     (codeCfg .tx2).guardedSends = true ∧ (codeCfg .cfg2).guardedSends = true ∧
     (codeCfg .tx3).guardedSends = true ∧ (codeCfg .cfg3).guardedSends = true := by decide
 
+/-- regenerated: what the machine's `.exit` step stands on.  A watcher that leaves through a
+    `case <-ctx.Done():` branch (it was cancelled in its forward loop, or while handing an event or a
+    replayed record to its consumer) may still be in a snapshot of the listeners the dispatcher is
+    serving; in the machine such a watcher is `drained` for ever.  In the four dispatcher stores every
+    return taken in such a branch first starts `go func(){ for range eventCh {} }()` - the drain that
+    never ends (a one-shot, non-blocking drain, or none, lets the dispatcher block on the departed
+    watcher's channel: seeded changes C15-m3, C15-m5, C08-m5). -/
+theorem C15_cancel_exits_drain_for_ever :
+    let f := OnosVerif.Generated.StoreFacts.v2TxWatchCancelReturns
+    (OnosVerif.Generated.StoreFacts.v2TxWatchCancelReturnsDrained = f ∧ 0 < f) ∧
+    (OnosVerif.Generated.StoreFacts.v2CfgWatchCancelReturnsDrained = OnosVerif.Generated.StoreFacts.v2CfgWatchCancelReturns ∧
+      0 < OnosVerif.Generated.StoreFacts.v2CfgWatchCancelReturns) ∧
+    (OnosVerif.Generated.StoreFacts.v3TxWatchCancelReturnsDrained = OnosVerif.Generated.StoreFacts.v3TxWatchCancelReturns ∧
+      0 < OnosVerif.Generated.StoreFacts.v3TxWatchCancelReturns) ∧
+    (OnosVerif.Generated.StoreFacts.v3CfgWatchCancelReturnsDrained = OnosVerif.Generated.StoreFacts.v3CfgWatchCancelReturns ∧
+      0 < OnosVerif.Generated.StoreFacts.v3CfgWatchCancelReturns) := by decide
+
+/-- regenerated: the configuration stores' `store` (the write-back of `Values` / `Applied.Values` into the
+    side maps, below `Create`, `Update` and `UpdateStatus`) rewrites an existing entry exactly when the
+    write carries another index than the stored one - in either direction and whatever the content: a
+    write that was acknowledged is what every later `Get`, `List`, event and replay shows.  (`>` instead
+    of `!=`, or a further conjunct that skips "equal" content, makes an acknowledged write invisible:
+    seeded changes C15-m4, C17-m3.) -/
+theorem C15_fact_store_rewrites_every_other_index (g : OnosVerif.Generated.V2G) :
+    OnosVerif.Generated.StoreFacts.v2CfgStoreRewriteGuard g = (g.n "pv.Index" != g.n "entry.Value.Index") ∧
+    OnosVerif.Generated.StoreFacts.v3CfgStoreRewriteGuard g = (g.n "pv.Index" != g.n "entry.Value.Index") :=
+  ⟨rfl, rfl⟩
+
 /-- … but the replay-time exits still leave without the drain goroutine (regenerated), so the full
     statement does not apply to them: -/
 theorem C15_early_exits_do_not_drain :
